@@ -1093,10 +1093,18 @@ impl<'s> Gen<'s> {
     // ---- C16: every pipeline (all type x transformation transitions) x {plain, num_threads(1) set last}
 
     pub fn c16_space(&self) -> u64 {
-        self.shapes.len() as u64 * 9
+        self.shapes.len() as u64 * 9 * 4
     }
 
     fn c16_case(&self, idx: u64) -> Option<Case> {
+        // four groups of six terminals each, so that every one of the 24 terminals is run under every shape and every
+        // parameter variant (a terminal that replaces the parameters in effect, seeded defect C16-d, is visible only there)
+        let inner = self.shapes.len() as u64 * 9;
+        let group = (idx / inner) as usize;
+        if group >= 4 {
+            return None;
+        }
+        let idx = idx % inner;
         let info = self.shapes.get((idx / 9) as usize)?;
         let variant9 = idx % 9;
         let variant = variant9 % 6;
@@ -1109,7 +1117,12 @@ impl<'s> Gen<'s> {
             len,
             shape: info.shape.to_string(),
             stages: stage_specs(&mut r, info.shape, len, 2),
-            term: [Term::CollectVec, Term::Count, Term::Reduce, Term::First, Term::CollectX, Term::ForEach][variant as usize],
+            term: [
+                [Term::CollectVec, Term::Count, Term::Reduce, Term::First, Term::CollectX, Term::ForEach],
+                [Term::All, Term::Any, Term::Find, Term::FindIdx, Term::FirstIdx, Term::Sum],
+                [Term::Collect, Term::IntoVec, Term::IntoSplitD, Term::IntoFixed, Term::Fold, Term::Min],
+                [Term::Max, Term::MinBy, Term::MaxBy, Term::MinByKey, Term::MaxByKey, Term::IntoSplitL],
+            ][group][variant as usize],
             pred: Keep::All,
             nt: if variant % 2 == 0 { 3 } else { 0 },
             cs: if variant < 3 { Cs::Exact(2) } else { Cs::Auto },
